@@ -992,6 +992,7 @@ func TestVerif_C10_NamespaceBarrier(t *testing.T) {
 	defer rec.Flush()
 	maxSteps := verifx.Scale(40, 70)
 	rapid.Check(t, func(rt *rapid.T) {
+		defer recoverWedged(rec)
 		w := newC10nsWorld(t, rt, rec)
 		defer func() { w.tc.shutdown() }()
 		sealable := func() []*c10nsDom {
